@@ -8,6 +8,7 @@ import Nri.Proofs.LibMemUpd
 import Nri.Proofs.LibMemFit
 import Nri.Proofs.LibMemCommit
 import Nri.Proofs.LibMemStrict
+import Nri.Proofs.LibMemStrictG
 import Nri.Props.C06
 import Nri.Gen.LibmemFacts
 /-!
@@ -451,6 +452,81 @@ theorem realloc_strict_partial (s : St) (hw : WF s) (h : SU s) (id : String) (no
     (hok : (s.Realloc id nodes types).2 = .ok res) (hns : ∀ q, s.req? id = some q → q.strict = false) :
     StrictInv (s.Realloc id nodes types).1 :=
   (Realloc_su s hw h id nodes types res hok hns).2
+
+/-! ### strict types over ALL histories, with the ghost record of re-allocation types
+
+`ghostRun` accumulates, per request id, the types that successful re-allocations named (or implied
+by their nodes); a release forgets the record.  "Requested types" of a request = its `types`
+field ∪ that record - the reading fixed in DESIGN §6.0 for C07. -/
+
+theorem step_strict_ghost (G : String → Nat) (s : St) (hw : WF s) (h : SUG G s) (op : Op) :
+    SUG (ghostStep G s op) (s.step op) := by
+  cases op with
+  | allocate r =>
+    show SUG G (s.Allocate r).1
+    cases hres : (s.Allocate r).2 with
+    | error e =>
+      obtain ⟨h1, _, _⟩ := allocate_fail_unchanged s hw r e hres
+      exact sug_of_reqs_eq G s _ h h1 (Allocate_nodes s hw r)
+    | ok res => exact Allocate_sug G s hw h r res hres
+  | getOffer r =>
+    show SUG G (s.GetOffer r).1
+    exact sug_of_reqs_eq G s _ h (getOffer_pure s hw r).1 (GetOffer_nodes s hw r)
+  | realloc id nodes types =>
+    show SUG (ghostStep G s (.realloc id nodes types)) (s.Realloc id nodes types).1
+    cases hres : (s.Realloc id nodes types).2 with
+    | error e =>
+      rw [ghostStep_realloc_err G s id nodes types e hres]
+      obtain ⟨h1, _, _⟩ := realloc_spec s hw id nodes types e hres
+      exact sug_of_reqs_eq G s _ h h1 (Realloc_nodes s hw id nodes types)
+    | ok res =>
+      rw [ghostStep_realloc_ok G s id nodes types res hres]
+      exact Realloc_sug G s hw h id nodes types res hres
+  | release id =>
+    show SUG (ghostStep G s (.release id)) (s.Release id).1
+    cases hres : (s.Release id).2 with
+    | error e =>
+      rw [ghostStep_release_err G s id e hres]
+      have hsame : (s.Release id).1 = s := by
+        unfold St.Release at hres ⊢
+        cases hr : s.req? id with
+        | none => rfl
+        | some r =>
+          simp only [hr] at hres ⊢
+          split
+          · rfl
+          · rename_i hz; simp [hz] at hres
+      rw [hsame]; exact h
+    | ok u =>
+      rw [ghostStep_release_ok G s id u hres]
+      obtain ⟨h1, _⟩ := release_ok s id hres
+      have hn := Release_nodes s id
+      refine ⟨nodesUniq_of_nodes s _ hn h.1, ?_⟩
+      intro q hq hs
+      rw [h1] at hq
+      obtain ⟨hq1, hq2⟩ := List.mem_filter.1 hq
+      have hne : q.id ≠ id := by simpa using hq2
+      rw [zoneType_nodes s _ hn]
+      simp only [hne, if_false]
+      exact h.2 q hq1 hs
+
+/-- **strict types over every history**: on a node table with unique ids, after EVERY history of
+Allocate / GetOffer / Realloc / Release, every request with strict type preference is assigned only
+nodes whose types are among its requested types - the types it was created with (as validated),
+those re-allocations found, and those its re-allocations named. -/
+theorem run_strict_ghost (nodes : List Node) (hu : NodesUniq { nodes := nodes }) (ops : List Op) :
+    StrictInvG (ghostRun (fun _ => 0) { nodes := nodes } ops) (St.run { nodes := nodes } ops) := by
+  have key : ∀ (ops : List Op) (G : String → Nat) (s : St), WF s → SUG G s → SUG (ghostRun G s ops) (s.run ops) := by
+    intro ops
+    induction ops with
+    | nil => intro G s _ h; exact h
+    | cons op ops ih =>
+      intro G s hw h
+      have hrun : s.run (op :: ops) = (s.step op).run ops := rfl
+      have hg : ghostRun G s (op :: ops) = ghostRun (ghostStep G s op) (s.step op) ops := rfl
+      rw [hrun, hg]
+      exact ih _ (s.step op) (step_keeps_wf s hw op) (step_strict_ghost G s hw h op)
+  exact (key ops _ _ (hinv_init nodes).wf ⟨hu, by intro q hq; cases hq⟩).2
 
 -- non-vacuity: a strict DRAM request on a DRAM+PMEM machine, under pressure, stays on DRAM
 example :
